@@ -1093,11 +1093,11 @@ func (t *tree) newValueNode(tok item) ast.Node {
 	case itemBool:
 		return &ast.BoolNode{tok.pos, tok.val == "true"}
 	case itemInteger:
-		var base = 10
+		var base, digits = 10, tok.val
 		if strings.HasPrefix(tok.val, "0x") {
-			base = 16
+			base, digits = 16, tok.val[2:]
 		}
-		value, err := strconv.ParseInt(tok.val, base, 64)
+		value, err := strconv.ParseInt(digits, base, 64)
 		if err != nil {
 			t.error(err)
 		}
